@@ -63,16 +63,32 @@ class DeepReuse(_Base):
         return dict(dialect=d.choice(['new', 'old']), specs=specs)
 
 
+class GdbShaped(_Base):
+    """the same histories handed over the way the GDB backend does (no interface on the target of a sent message, declared
+    argument interfaces, decoded arrays): attribution must not depend on the printed interface names"""
+    name = 'gdb-shaped'
+    kind = 'given'
+
+    def examples(self, tier):
+        return 120 if tier == 'quick' else 14 * 1000
+
+    def gen(self, d, tier):
+        specs = histgen.history(d, nconn=d.int(1, 2), nmsg=d.int(5, 40), profile=dict(reuse=0.7, weights=dict(
+            delete=16, bind=16, message=44, server_event=10, sync=6, enum=4, retype=8)))
+        return dict(dialect='gdb-shaped', specs=specs)
+
+
 class C02(Prop):
     id = 'C02'
     rule = ('Hypothesis rule-based machine: rules = step kinds (protocol message, delete_id, registry bind, server-created object, sync) on 1-3 '
             'connections with colliding ids; each step is rendered, decoded and handed to a real ConnectionManager and to the reference model; '
             'after every step target/arguments/delete_id subject, the full object table and the labels on the rendered line are compared. '
-            'deep-reuse: generated histories driving one id through >= 27 incarnations. non-trivial = a history in which an object of generation '
+            'deep-reuse: generated histories driving one id through >= 27 incarnations. gdb-shaped: histories handed to the connection manager the way '
+            'the GDB backend builds messages (sent targets without interface). non-trivial = a history in which an object of generation '
             '>= 1 is mentioned after its creation; distinct by SHA-1 of the spec list.')
     assumptions = ['well-formed histories as constructed by histgen (client ids reused only after delete_id)',
                    'reference model of DESIGN appendix B; enum labels and times are excluded here (C07, C16)']
-    stages = [Machine(), DeepReuse()]
+    stages = [Machine(), DeepReuse(), GdbShaped()]
 
 
 PROP = C02()
